@@ -12,6 +12,21 @@ Families:
              (repaired in /repo: the function reads the labels of the current keys); they must give (0, 0) / T0>=Tf>=0.
              Should the ValueError come back the oracle reports it under the signature
              C15:D6-temperature-range-stale-variables
+  hist       HISTORIES on one model object (all ten model classes): queries (the four extrema functions, `_get_bounds`)
+             interleaved with in-place edits of the same object — item `=`, `+=`, `-=`, `M += c`, `M -= c`, `M += {..}`,
+             `M -= {..}`, `M *= c`, `M /= c`, `update`, `del M[k]`, `pop`, `refresh()`, `clear()`, `copy()` — biased towards
+             edits that cancel a term / the offset / all variable terms EXACTLY right before the next query (a write whose
+             result is 0 removes the entry).  Every query is judged against the truth table of the terms the object holds at
+             that moment (whatever the object remembers from an earlier query must not show); answers and final terms are
+             also compared with the Lean model (driver op `extrema_hist`: the `Qv.Model.Arith` operators, then the folds).
+             Exhaustive part: ten classes x three base models x every single cancelling edit x both function names
+  types      coefficient TYPES: Python bool, numpy.bool_, numpy int64/int32/int8, numpy float64/float32, int, float,
+             Fraction — homogeneous and mixed, in raw dicts, constructor arguments and model objects written by item
+             assignment (`M[k] = v`), each term list in several insertion orders (offset first / last, flags before / after
+             the numbers, shuffled); judged by the enclosure oracle on the exact rationals of the numeric values (True = 1);
+             compared with the Lean model on those rationals.  Exhaustive part: the three-flag model {(): 1, (0,): 1, (1,): 1}
+             with every assignment of {bool, numpy.bool_, int} to its entries x all six insertion orders x dict / assignment
+             x boolean / spin
 Direct oracle (independent of the Lean model): truth tables of the object actually passed (n <= 10).
 """
 import itertools, json, math
@@ -24,9 +39,15 @@ RULE = ("random term lists over <=10 labels (keys of length 0..4, unsorted and w
         "dyadic-float coefficients, zero coefficients in raw dicts) given as plain dicts or as objects of the ten model "
         "types built by the constructor (dict or list of pairs) and 0-3 item edits (+=, -=, =, biased towards "
         "cancellation); temperature range with flip probabilities from {0,.01,.1,.25,.5,.75,.99} plus inadmissible ones; "
+        "histories on one object (query, in-place edits incl. exact cancellation of a term / the offset, query again; all ten "
+        "classes; 14 edit kinds); coefficient types bool / numpy.bool_ / numpy ints and floats / Fraction, mixed, in several "
+        "insertion orders, in dicts, constructor arguments and objects written by item assignment; "
         "a case is non-trivial when the passed model has >=2 terms and >=1 non-constant term; distinct = distinct case JSON")
 ASSUMPTIONS = ["float coefficients are dyadic so IEEE arithmetic is exact; the boolean path of anneal_temperature_range "
                "(pubo_to_puso produces floats) is driven with dyadic coefficients only",
+               "numpy fixed-width integers are used only where every partial sum and every negation stays inside the type "
+               "(signed types, |v| <= 7, at most 8 terms): numpy's wrap-around (int8 overflow, `0 - uint8(3) == 253`) is not "
+               "arithmetic of real numbers and is outside the property's quantifier",
                "math.log and the final float division of anneal_temperature_range are outside the exact model: compared "
                "within 1e-12 relative tolerance against -dE/log(p) recomputed from the model's rational dE; the theorem "
                "T15.4 is about Real.log"]
@@ -198,6 +219,276 @@ def bounds_case(rng):
     return {"family": "bounds", "kind": "PUBO", "n": n, "p": terms, "ctor": "pairs", "edits": [], "labels": rng.choice(Labels.STYLES_X),
             "num": rng.choice(["int", "frac"]), "shape": shape, "lo": gen_coef(rng, False), "hi": gen_coef(rng, False)}
 
+# ------------------------------------------------------------------ histories on one model object
+
+def squash_prop(kind, k):
+    """generator-side reading of a key as a monomial (x*x = x on booleans, z*z = 1 on spins); only used to AIM edits at
+    entries that exist — neither the model nor the oracle uses it"""
+    if kind in SPIN_KINDS:
+        return tuple(sorted(i for i in set(k) if list(k).count(i) % 2))
+    return tuple(sorted(set(k)))
+
+class Track:
+    """what the generator believes the object holds (insertion-ordered); a wrong belief only makes an edit miss"""
+    def __init__(self, kind, terms):
+        self.kind, self.d = kind, {}
+        for k, v in terms:
+            self.add(k, Fraction(v))
+    def set(self, k, v):
+        k = squash_prop(self.kind, k)
+        if v:
+            self.d[k] = v
+        else:
+            self.d.pop(k, None)
+    def add(self, k, v):
+        self.set(k, self.d.get(squash_prop(self.kind, k), Fraction(0)) + v)
+    def apply(self, st):
+        op = st[0]
+        if op == "set": self.set(st[1], Fraction(st[2]))
+        elif op == "add": self.add(st[1], Fraction(st[2]))
+        elif op == "sub": self.add(st[1], -Fraction(st[2]))
+        elif op == "iaddc": self.add([], Fraction(st[1]))
+        elif op == "isubc": self.add([], -Fraction(st[1]))
+        elif op == "iaddd":
+            for k, v in st[1]: self.add(k, Fraction(v))
+        elif op == "isubd":
+            for k, v in st[1]: self.add(k, -Fraction(v))
+        elif op == "imulc":
+            for k in list(self.d): self.set(k, self.d[k] * Fraction(st[1]))
+        elif op == "idivc":
+            for k in list(self.d): self.set(k, self.d[k] / Fraction(st[1]))
+        elif op == "update":
+            for k, v in st[1]: self.set(k, Fraction(v))
+        elif op in ("del", "pop"):
+            ks = list(self.d)
+            if ks: del self.d[ks[st[1] % len(ks)]]
+        elif op == "clear": self.d = {}
+
+def raw_variant(rng, kind, k):
+    """another spelling of the same monomial: shuffled, and (types that allow it) with a repeated label"""
+    k = list(k)
+    if k and rng.random() < 0.2:
+        extra = rng.choice(k)
+        k = k + ([extra, extra] if kind in SPIN_KINDS else [extra])
+    rng.shuffle(k)
+    return k
+
+def cancelling_edit(rng, kind, tr, allow_div):
+    """one in-place edit after which some entry (the offset / a term / all variable terms / everything) is exactly 0"""
+    d = tr.d
+    if not d:
+        return ["iaddc", "0"]
+    r = rng.random()
+    off = d.get(())
+    nonconst = [(k, v) for k, v in d.items() if k]
+    if off is not None and (r < 0.35 or not nonconst):
+        how = rng.randrange(6)
+        return [["isubc", fs(off)], ["iaddc", fs(-off)], ["add", [], fs(-off)], ["sub", [], fs(off)], ["set", [], "0"],
+                ["isubd", [[[], fs(off)]]]][how]
+    if nonconst and r < 0.75:
+        k, v = rng.choice(nonconst)
+        kk = raw_variant(rng, kind, k)
+        how = rng.randrange(8)
+        if how == 6:
+            return ["del", list(d).index(k)]
+        if how == 7:
+            return ["pop", list(d).index(k)]
+        return [["add", kk, fs(-v)], ["sub", kk, fs(v)], ["set", kk, "0"], ["isubd", [[kk, fs(v)]]],
+                ["iaddd", [[kk, fs(-v)]]], ["update", [[kk, "0"]]]][how]
+    if r < 0.87 and nonconst:
+        items = [[list(k), fs(v)] for k, v in nonconst]
+        rng.shuffle(items)
+        return rng.choice([["isubd", items], ["iaddd", [[k, fs(-Fraction(v))] for k, v in items]]])
+    if r < 0.95:
+        return ["imulc", "0"]
+    return ["isubd", [[list(k), fs(v)] for k, v in d.items()]]
+
+def plain_edit(rng, n, kind, tr, dyadic, allow_div):
+    r = rng.random()
+    if r < 0.30:
+        return [rng.choice(["add", "sub", "set"]), gen_key(rng, n, kind), gen_coef(rng, dyadic, zero_ok=True)]
+    if r < 0.42:
+        return [rng.choice(["iaddc", "isubc"]), gen_coef(rng, dyadic, zero_ok=True)]
+    if r < 0.56:
+        q = {}
+        for _ in range(rng.randint(1, 3)):
+            q[tuple(gen_key(rng, n, kind))] = gen_coef(rng, dyadic)
+        return [rng.choice(["iaddd", "isubd", "update"]), [[list(k), v] for k, v in q.items()]]
+    if r < 0.68:
+        return ["imulc", rng.choice(["2", "-1", "-2", "3", "1/2", "1"])]
+    if r < 0.74 and allow_div:
+        return ["idivc", rng.choice(["2", "-2", "4", "1/2", "-1"])]
+    if r < 0.82:
+        return ["refresh"]
+    if r < 0.90:
+        return ["copy"]
+    if r < 0.94:
+        return ["clear"]
+    if tr.d:
+        return [rng.choice(["del", "pop"]), rng.randrange(len(tr.d))]
+    return ["refresh"]
+
+def gen_query(rng, kind, dyadic):
+    if rng.random() < 0.12 and (dyadic or kind in SPIN_KINDS):
+        # (the boolean path converts with pubo_to_puso, which halves coefficients: dyadic data only)
+        while True:
+            ps, pe = gen_probs(rng)
+            if 0 <= Fraction(pe) <= Fraction(ps) < 1:
+                return ["qt", ps, pe, kind in SPIN_KINDS]
+    if kind in SPIN_KINDS:
+        return ["q", rng.choice(["puso", "puso", "quso"])]
+    if rng.random() < 0.2:
+        sh = rng.choice(["none", "nn", "nh", "ln"])
+        lo, hi = gen_coef(rng, dyadic), gen_coef(rng, dyadic)
+        return ["qb", sh, lo if sh[0] == "l" else None, hi if sh[1:] == "h" else None]
+    return ["q", rng.choice(["pubo", "pubo", "qubo"])]
+
+def hist_case(rng):
+    fam = rng.choice(["bool", "spin"])
+    kind = rng.choice(BOOL_KINDS if fam == "bool" else SPIN_KINDS)
+    dyadic = rng.random() < 0.5
+    n = rng.choice([1, 2, 3, 3, 4, 4, 5, 6])
+    terms, ctor = gen_terms(rng, n, kind, dyadic)
+    if rng.random() < 0.6 and not any(len(k) == 0 for k, _ in terms):
+        terms.insert(rng.randrange(len(terms) + 1), [[], gen_coef(rng, dyadic)])
+    num = "float" if (dyadic and rng.random() < 0.4) else rng.choice(["int", "frac"])
+    allow_div = dyadic or num == "frac"
+    tr = Track(kind, terms)
+    steps = []
+    if rng.random() < 0.9:
+        steps.append(gen_query(rng, kind, dyadic))
+    for _ in range(rng.randint(1, 3)):
+        edits = [plain_edit(rng, n, kind, tr, dyadic, allow_div) for _ in range(rng.choice([0, 0, 1, 1, 2]))]
+        for e in edits:
+            tr.apply(e)
+        if rng.random() < 0.75 or not edits:
+            e = cancelling_edit(rng, kind, tr, allow_div)
+            tr.apply(e); edits.append(e)
+        steps += edits
+        steps.append(gen_query(rng, kind, dyadic))
+        if rng.random() < 0.3:
+            steps.append(gen_query(rng, kind, dyadic))
+    labels = "int" if kind in MATRIX else rng.choice(Labels.STYLES_X)
+    return {"family": "hist", "kind": kind, "n": n, "p": terms, "ctor": ctor, "edits": [], "labels": labels, "num": num,
+            "steps": steps}
+
+HIST_BASES = [[[[0], "3"], [[1], "-1"], [[0, 1], "2"], [[], "4"]],
+              [[[0], "1"], [[1, 0], "-2"], [[], "-7"]],
+              [[[], "2"], [[1], "-1"], [[0], "3"]]]
+
+def hist_grid():
+    """every class x base model x single cancelling edit (each way of writing it) x function name: query, edit, query"""
+    out = []
+    for kind in BOOL_KINDS + SPIN_KINDS:
+        fns = ["pubo", "qubo"] if kind in BOOL_KINDS else ["puso", "quso"]
+        for bi, base in enumerate(HIST_BASES):
+            off = next(v for k, v in base if not k)
+            k1, v1 = next((k, v) for k, v in base if len(k) == 1)
+            nonconst = [[k, v] for k, v in base if k]
+            edits = [["isubc", off], ["iaddc", fs(-Fraction(off))], ["add", [], fs(-Fraction(off))], ["sub", [], off],
+                     ["set", [], "0"], ["isubd", [[[], off]]], ["update", [[[], "0"]]],
+                     ["add", k1, fs(-Fraction(v1))], ["sub", k1, v1], ["set", k1, "0"], ["isubd", [[k1, v1]]],
+                     ["isubd", nonconst], ["imulc", "0"], ["isubd", base], ["del", 0], ["pop", len(base) - 1], ["clear"]]
+            for ei, e in enumerate(edits):
+                f = fns[(ei + bi) % 2]
+                g = fns[(ei + bi + 1) % 2] if ei % 3 == 0 else f
+                out.append({"family": "hist", "sub": "grid", "kind": kind, "n": 2, "p": base, "ctor": "dict", "edits": [],
+                            "labels": "int" if kind in MATRIX else ("int", "str", "mixed")[(ei + bi) % 3],
+                            "num": ("int", "frac", "float")[(ei + 2 * bi) % 3], "steps": [["q", f], e, ["q", g]]})
+    return out
+
+# ------------------------------------------------------------------ coefficient types
+
+T_BOOL = ("bool", "npbool")
+T_NPINT = ("npint64", "npint32", "npint8")
+T_FLOAT = ("float", "npfloat64", "npfloat32")
+PALETTES = {"flags": ["bool", "npbool", "int", "npint64", "npint8"],
+            "bools": ["bool", "npbool"],
+            "exact": ["bool", "npbool", "int", "npint64", "npint32", "npint8", "frac"],
+            "dyadic": ["bool", "npbool", "int", "npint64", "npint8", "frac", "float", "npfloat64", "npfloat32"],
+            "npnum": ["npint64", "npint32", "npfloat64", "npfloat32", "npbool"]}
+
+def typed(s, t):
+    """the exact rational s as a Python object of coefficient type t"""
+    import numpy as np
+    f = Fraction(s)
+    if t == "bool": return bool(f)
+    if t == "npbool": return np.bool_(bool(f))
+    if t == "int": return int(f)
+    if t == "npint64": return np.int64(int(f))
+    if t == "npint32": return np.int32(int(f))
+    if t == "npint8": return np.int8(int(f))
+    if t == "float": return float(f)
+    if t == "npfloat64": return np.float64(float(f))
+    if t == "npfloat32": return np.float32(float(f))
+    return f
+
+def gen_typed_value(rng, t, pal, zero_ok):
+    if t in T_BOOL:
+        return "0" if (zero_ok and rng.random() < 0.08) else "1"
+    if pal == "flags":
+        return "0" if (zero_ok and rng.random() < 0.08) else "1"
+    if t == "int" or t in T_NPINT:
+        return str(rng.choice([-7, -5, -3, -2, -1, 1, 1, 2, 3, 4, 7]))
+    if t in T_FLOAT or pal in ("dyadic", "npnum"):
+        return rng.choice(["1/2", "-1/2", "3/2", "-3/4", "5/8", "1/4", "-7/8", "9/4", "1", "-2", "3"])
+    return rng.choice(["1/3", "-2/3", "5/7", "7/5", "-11/6", "1/2", "-3/4", "2", "-1"])
+
+def orders(rng, p, pt):
+    """several insertion orders of one term list: as generated, offset first, offset last, flags first, flags last, shuffled"""
+    idx = list(range(len(p)))
+    isoff = lambda i: len(p[i][0]) == 0
+    isflag = lambda i: pt[i] in T_BOOL
+    outs = [idx,
+            sorted(idx, key=lambda i: (not isoff(i), not isflag(i))),
+            sorted(idx, key=lambda i: (not isoff(i), isflag(i))),
+            sorted(idx, key=lambda i: (isoff(i), not isflag(i))),
+            sorted(idx, key=lambda i: (isoff(i), isflag(i)))]
+    sh = idx[:]; rng.shuffle(sh); outs.append(sh)
+    seen, res = set(), []
+    for o in outs:
+        if tuple(o) not in seen:
+            seen.add(tuple(o)); res.append(o)
+    return res
+
+def types_cases(rng, k_orders=3):
+    """one random typed term list, returned in up to k_orders insertion orders (same kind / build mode / function)"""
+    fam = rng.choice(["bool", "bool", "spin"])
+    kind = rng.choice(["dict", "dict", "dict"] + (BOOL_KINDS if fam == "bool" else SPIN_KINDS))
+    pal = rng.choice(["flags", "flags", "bools", "exact", "exact", "dyadic", "dyadic", "npnum"])
+    n = rng.choice([1, 2, 3, 3, 4, 5, 6])
+    m = rng.choice([1, 2, 3, 3, 4, 5, 6, 8])
+    ctor = "dict" if kind == "dict" else rng.choice(["assign", "assign", "dict"])
+    d = {}
+    if rng.random() < 0.7:
+        d[()] = None
+    for _ in range(m):
+        d[tuple(gen_key(rng, n, kind))] = None
+    # a dominant type with a few others mixed in, or fully mixed
+    dom = rng.choice(PALETTES[pal]); mix = rng.choice([0.0, 0.3, 1.0])
+    p, pt = [], []
+    for k in d:
+        t = rng.choice(PALETTES[pal]) if rng.random() < mix else dom
+        p.append([list(k), gen_typed_value(rng, t, pal, zero_ok=True)]); pt.append(t)
+    f = (rng.choice(["pubo", "qubo"]) if fam == "bool" else rng.choice(["puso", "quso"]))
+    labels = "int" if kind in MATRIX else rng.choice(Labels.STYLES)
+    os_ = orders(rng, p, pt)
+    rng.shuffle(os_)
+    return [{"family": "types", "kind": kind, "n": n, "p": [p[i] for i in o], "ptypes": [pt[i] for i in o], "ctor": ctor,
+             "edits": [], "labels": labels, "num": "typed", "f": f, "pal": pal} for o in os_[:k_orders]]
+
+def types_grid():
+    out = []
+    base = [[[], "1"], [[0], "1"], [[1], "1"]]
+    for ts in itertools.product(("bool", "npbool", "int"), repeat=3):
+        for o in itertools.permutations(range(3)):
+            for kind, ctor, f in (("dict", "dict", "pubo"), ("PUBO", "assign", "qubo"), ("dict", "dict", "puso"),
+                                  ("QUSO", "assign", "quso")):
+                out.append({"family": "types", "sub": "grid", "kind": kind, "n": 2, "p": [base[i] for i in o],
+                            "ptypes": [ts[i] for i in o], "ctor": ctor, "edits": [], "labels": "int", "num": "typed",
+                            "f": f, "pal": "flags"})
+    return out
+
 # ------------------------------------------------------------------ implementation side
 
 def num_of(s, style):
@@ -211,9 +502,17 @@ def num_of(s, style):
 def build(case):
     """the object the caller holds: a plain dict or a model object after its edits"""
     L = Labels(case["labels"])
-    items = [(L.key(k), num_of(v, case["num"])) for k, v in case["p"]]
+    if "ptypes" in case:
+        items = [(L.key(k), typed(v, t)) for (k, v), t in zip(case["p"], case["ptypes"])]
+    else:
+        items = [(L.key(k), num_of(v, case["num"])) for k, v in case["p"]]
     if case["kind"] == "dict":
         return dict(items), L
+    if case["ctor"] == "assign":
+        obj = cls_of(case["kind"])()
+        for k, v in items:
+            obj[k] = v
+        return obj, L
     obj = cls_of(case["kind"])(dict(items) if case["ctor"] == "dict" else items)
     for op, k, v in case["edits"]:
         key, val = L.key(k), num_of(v, case["num"])
@@ -255,6 +554,75 @@ def run_bounds(case):
         return {"err": exc_name(e)}, obj
     return {"lo": fs(r[0]), "hi": fs(r[1])}, obj
 
+def query_step(obj, st, num):
+    from qubovert import utils
+    from qubovert._pcbo import _get_bounds
+    if st[0] == "q":
+        return getattr(utils, "approximate_%s_extrema" % st[1])(obj)
+    if st[0] == "qt":
+        from qubovert.sim import anneal_temperature_range
+        return anneal_temperature_range(obj, float(Fraction(st[1])), float(Fraction(st[2])), st[3])
+    lo = None if st[2] is None else num_of(st[2], num)
+    hi = None if st[3] is None else num_of(st[3], num)
+    return _get_bounds(obj, {"none": None, "nn": (None, None), "nh": (None, hi), "ln": (lo, None)}[st[1]])
+
+def edit_step(obj, st, L, num):
+    """one in-place edit of the object the caller holds; returns the object the caller holds afterwards"""
+    op = st[0]
+    if op == "set": obj[L.key(st[1])] = num_of(st[2], num)
+    elif op == "add": obj[L.key(st[1])] += num_of(st[2], num)
+    elif op == "sub": obj[L.key(st[1])] -= num_of(st[2], num)
+    elif op == "iaddc": obj += num_of(st[1], num)
+    elif op == "isubc": obj -= num_of(st[1], num)
+    elif op == "iaddd": obj += {L.key(k): num_of(v, num) for k, v in st[1]}
+    elif op == "isubd": obj -= {L.key(k): num_of(v, num) for k, v in st[1]}
+    elif op == "imulc": obj *= num_of(st[1], num)
+    elif op == "idivc": obj /= num_of(st[1], num)
+    elif op == "update": obj.update({L.key(k): num_of(v, num) for k, v in st[1]})
+    elif op in ("del", "pop"):
+        ks = list(obj)
+        if ks:
+            if op == "del":
+                del obj[ks[st[1] % len(ks)]]
+            else:
+                obj.pop(ks[st[1] % len(ks)])
+    elif op == "refresh": obj.refresh()
+    elif op == "clear": obj.clear()
+    elif op == "copy": obj = obj.copy()
+    else:
+        raise AssertionError("unknown history step %r" % (st,))
+    return obj
+
+def run_hist(case):
+    """returns (comparable output, per-query oracle findings)"""
+    try:
+        obj, L = build(case)
+    except Exception as e:
+        return {"build_err": exc_name(e)}, []
+    cls0, qs, bad = type(obj), [], []
+    for i, st in enumerate(case["steps"]):
+        if st[0] in ("q", "qb", "qt"):
+            s0 = snapshot(obj)
+            try:
+                r = query_step(obj, st, case["num"])
+            except Exception as e:
+                bad.append((i, "%s raised %s(%s) on %s" % (st, exc_name(e), str(e)[:80], dict(obj))))
+                return {"q": qs, "err": exc_name(e)}, bad
+            qs.append({"T0": r[0], "Tf": r[1]} if st[0] == "qt" else {"lo": fs(r[0]), "hi": fs(r[1])})
+            why = hist_oracle(st, r, obj, case["num"])
+            if why is None and snapshot(obj) != s0:
+                why = "the query modified the model"
+            if why:
+                bad.append((i, why))
+        else:
+            try:
+                obj = edit_step(obj, st, L, case["num"])
+            except Exception as e:
+                return {"q": qs, "err": exc_name(e)}, bad
+            if type(obj) is not cls0:
+                bad.append((i, "step %s turned the %s into a %s" % (st, cls0.__name__, type(obj).__name__)))
+    return {"q": qs, "terms": canon_terms(obj, L)}, bad
+
 def prob_of(s, style):
     f = Fraction(s)
     if f.denominator == 1:
@@ -285,6 +653,23 @@ def model_line(case):
     base = {"kind": case["kind"], "p": case["p"], "edits": case["edits"]}
     if case["family"] == "extrema":
         return dict(base, op="extrema", f=case["f"])
+    if case["family"] == "types":
+        # the numeric values of the typed coefficients (True = 1); item assignment = `set` edits on an empty object
+        if case["ctor"] == "assign":
+            return dict(op="extrema", f=case["f"], kind=case["kind"], p=[], edits=[["set", k, v] for k, v in case["p"]])
+        return dict(op="extrema", f=case["f"], kind=case["kind"], p=case["p"], edits=[])
+    if case["family"] == "hist":
+        steps = []
+        for st in case["steps"]:
+            if st[0] == "sub":
+                steps.append(["add", st[1], fs(-Fraction(st[2]))])
+            elif st[0] == "qb":
+                steps.append(["qb", st[2], st[3]])
+            elif st[0] == "qt":     # the probabilities exactly as the implementation receives them
+                steps.append(["qt", fs(Fraction(float(Fraction(st[1])))), fs(Fraction(float(Fraction(st[2])))), st[3]])
+            else:
+                steps.append(st)
+        return dict(op="extrema_hist", kind=case["kind"], p=case["p"], steps=steps)
     if case["family"] == "bounds":
         sh = case["shape"]
         return dict(op="getbounds", kind="PUBO", p=case["p"], edits=[],
@@ -297,7 +682,7 @@ def model_line(case):
 
 def items_of(obj):
     """the terms of the object that was passed, as (tuple of labels, Fraction)"""
-    return [(tuple(k), Fraction(v)) for k, v in obj.items()]
+    return [(tuple(k), Fraction(fs(v))) for k, v in obj.items()]
 
 def truth_table(items, spin):
     """(min, max) over all assignments of sum_k v_k * prod_{i in k} x_i, literally multiplied (repeated labels twice);
@@ -348,6 +733,42 @@ def extrema_oracle(case, out, obj):
         const = sum((v for _, v in items), Fraction(0))
         if not (lo == hi == const):
             return "constant model %s: (lo, hi) = (%s, %s), expected both %s" % (dict(obj), lo, hi, const)
+    return None
+
+def hist_oracle(st, r, obj, num):
+    """one query inside a history, judged on the terms the object holds right now"""
+    items = items_of(obj)
+    if st[0] == "qt":
+        T0, Tf = r
+        if not (T0 >= Tf >= 0):
+            return "anneal_temperature_range: T0 >= Tf >= 0 fails: (%r, %r) for %s" % (T0, Tf, dict(obj))
+        if all(len(k) == 0 for k, _ in items) and not (T0 == 0 and Tf == 0):
+            return "anneal_temperature_range: model without variables %s gives (%r, %r), expected (0, 0)" % (dict(obj), T0, Tf)
+        return None
+    tt = truth_table(items, st[0] == "q" and st[1] in ("puso", "quso"))
+    if tt is None:
+        return None
+    lo, hi = Fraction(fs(r[0])), Fraction(fs(r[1]))
+    if st[0] == "qb":
+        sh = st[1]
+        if sh in ("none", "nn", "nh") and not lo <= tt[0]:
+            return "_get_bounds: computed lower bound %s exceeds the true minimum %s of %s" % (lo, tt[0], dict(obj))
+        if sh in ("none", "nn", "ln") and not hi >= tt[1]:
+            return "_get_bounds: computed upper bound %s is below the true maximum %s of %s" % (hi, tt[1], dict(obj))
+        if sh[0] == "l" and lo != Fraction(st[2]):
+            return "_get_bounds: supplied lower bound was not kept"
+        if sh[1:] == "h" and hi != Fraction(st[3]):
+            return "_get_bounds: supplied upper bound was not kept"
+        return None
+    name = "approximate_%s_extrema" % st[1]
+    if not (lo <= tt[0]):
+        return "%s: lo = %s exceeds the true minimum %s of %s" % (name, lo, tt[0], dict(obj))
+    if not (hi >= tt[1]):
+        return "%s: hi = %s is below the true maximum %s of %s" % (name, hi, tt[1], dict(obj))
+    if all(len(k) == 0 for k, _ in items):
+        const = sum((v for _, v in items), Fraction(0))
+        if not (lo == hi == const):
+            return "%s: constant model %s: (lo, hi) = (%s, %s), expected both %s" % (name, dict(obj), lo, hi, const)
     return None
 
 def bounds_oracle(case, out, obj):
@@ -429,6 +850,19 @@ def temp_matches(case, out, m):
                 return False
     return True
 
+def hist_matches(case, out, m):
+    """answers of the queries and final terms; a temperature only through -dE/log(p) (the one tolerance of this check)"""
+    if set(out) != set(m) or any(out[k] != m[k] for k in out if k != "q") or len(out.get("q", [])) != len(m.get("q", [])):
+        return False
+    qsteps = [st for st in case["steps"] if st[0] in ("q", "qb", "qt")]
+    for st, a, b in zip(qsteps, out.get("q", []), m.get("q", [])):
+        if st[0] != "qt":
+            if a != b:
+                return False
+        elif not temp_matches({"ps": st[1], "pe": st[2], "pstyle": "float"}, a, b):
+            return False
+    return True
+
 def nontrivial(case):
     return len(case["p"]) >= 2 and any(len(k) > 0 and Fraction(v) != 0 for k, v in case["p"])
 
@@ -437,9 +871,24 @@ def process(ctx, cases):
     models = common.run_driver(lines)
     for c, m in zip(cases, models):
         fam = c["family"]
-        if fam == "extrema":
+        if fam == "hist":
+            out, bad = run_hist(c)
+            tag = "hist:%s:%s" % (c.get("sub", "random"), c["kind"])
+            for st in c["steps"]:
+                ctx.count("hist-step:" + st[0])
+            if not hist_matches(c, out, m):
+                ctx.diff("hist", c, out, m)
+            for i, why in bad[:1]:
+                # the shortest history that shows it: everything up to the failing query
+                ctx.violation("C15:history", dict(c, steps=c["steps"][:i + 1]),
+                              "%s(%s) after the steps %s: %s" % (c["kind"], c["p"], c["steps"][:i + 1], why))
+        elif fam in ("extrema", "types"):
             out, obj = run_extrema(c)
-            tag = "extrema:%s:%s" % (c["f"], c["kind"])
+            tag = "%s:%s:%s" % (fam, c["f"], c["kind"])
+            if fam == "types":
+                tag = "types:%s:%s:%s" % (c.get("sub", c["pal"]), c["f"], "dict" if c["kind"] == "dict" else c["ctor"])
+                for t in set(c["ptypes"]):
+                    ctx.count("coef-type:" + t)
             if "build_err" in out:
                 tag += ":build_err"
             if out != m:
@@ -474,6 +923,11 @@ def check(ctx):
     cases += [extrema_case(rng) for _ in range(ctx.scale(2000, 40000))]
     cases += [temp_case(rng) for _ in range(ctx.scale(2000, 40000))]
     cases += [bounds_case(rng) for _ in range(ctx.scale(200, 2000))]
+    cases += hist_grid()
+    cases += [hist_case(rng) for _ in range(ctx.scale(1200, 20000))]
+    cases += types_grid()
+    for _ in range(ctx.scale(400, 6000)):
+        cases += types_cases(rng)
     cases += malformed_cases(rng, ctx.scale(40, 400))
     process(ctx, cases)
     if [d for d in ctx.diffs] and not [v for v in ctx.violations if v["signature"] != D6]:
@@ -485,13 +939,27 @@ def search(ctx):
     extra = []
     for d in ctx.diffs[:60]:
         c = d["case"]
+        if "p" not in c:
+            continue
         for i in range(len(c["p"])):
-            extra.append(dict(c, p=c["p"][:i] + c["p"][i + 1:]))
+            e = dict(c, p=c["p"][:i] + c["p"][i + 1:])
+            if "ptypes" in c:
+                e["ptypes"] = c["ptypes"][:i] + c["ptypes"][i + 1:]
+            extra.append(e)
         if c.get("edits"):
             extra.append(dict(c, edits=[]))
     extra += [extrema_case(ctx.rng) for _ in range(4000)] + [temp_case(ctx.rng) for _ in range(4000)]
+    extra += [hist_case(ctx.rng) for _ in range(2000)]
+    for _ in range(1000):
+        extra += types_cases(ctx.rng)
     for c in extra:
-        if c["family"] == "extrema":
+        if c["family"] == "hist":
+            if "steps" not in c:
+                continue
+            out, bad = run_hist(c)
+            for i, why in bad[:1]:
+                ctx.violation("C15:history", dict(c, steps=c["steps"][:i + 1]), why)
+        elif c["family"] in ("extrema", "types"):
             out, obj = run_extrema(c)
             bad = extrema_oracle(c, out, obj)
             if bad:
